@@ -16,4 +16,5 @@ PY
 done
 git -C /repo checkout -- . && git -C /repo status --porcelain | head -3
 rm -rf /verif/evidence && mv /verif/.work/evidence.bak /verif/evidence
+/verif/.bin/vx extract >/dev/null 2>&1   # the regenerated tables come from the clean tree again
 rm -f /verif/replays/*
